@@ -39,10 +39,10 @@ Section Jump.
     match jump_spec n target rows with
     | Some (j, n') =>
         jump_to fuel comma target (mkC (flat_map (enc_row enc) rows ++ flat_map eol trailing) n)
-        = Some (false, mkC (flat_map (enc_row enc) (skipn j rows) ++ flat_map eol trailing) n')
+        = Some (JOk, mkC (flat_map (enc_row enc) (skipn j rows) ++ flat_map eol trailing) n')
     | None =>
         exists n', jump_to fuel comma target (mkC (flat_map (enc_row enc) rows ++ flat_map eol trailing) n)
-                   = Some (true, mkC [] n')
+                   = Some (JEof, mkC [] n')
     end.
   Proof.
     induction rows as [|r rows IH]; intros fuel n Hwf Hf.
@@ -171,3 +171,41 @@ Section Jump.
       intro Hd. exact Hd.
   Qed.
 End Jump.
+
+(* ---- a failure of the input while skipping rows (repair N10) ------------------------------------------- *)
+(* The only read error the in-memory model has that is not a *csv.ParseError is encoding/csv's
+   rejection of the delimiter (errInvalidDelim: nothing is consumed, every Read fails again).
+   jumpTo stops at the first such error instead of retrying it for every row still to skip, and
+   the first Read reports a fatal error at once - for every header_row_index / data_row_index. *)
+Lemma csv_next_bad_delim comma st : valid_delim comma = false -> csv_next comma st = (CBadDelim, st).
+Proof. intro H. rewrite csv_next_is_strict. unfold csv_next_strict. rewrite H. reflexivity. Qed.
+
+Lemma jump_to_stops_on_error comma fuel row st : valid_delim comma = false -> c_line st < row ->
+  jump_to (S fuel) comma row st = Some (JErr, st).
+Proof.
+  intros H Hl. cbn [jump_to]. apply Nat.ltb_lt in Hl. rewrite Hl, (csv_next_bad_delim comma st H). reflexivity.
+Qed.
+
+Theorem csv_input_failure_fatal_proof trim d input k :
+  valid_delim (d_delim d) = false ->
+  run_reads ost (old_read trim d) (S k) (old_init d input) = [OFatal].
+Proof.
+  intro H. cbn [run_reads]. rewrite (old_read_init trim d).
+  set (c0 := o_c (old_init d input)).
+  assert (Hc0 : c_line c0 = 0) by reflexivity.
+  assert (Hdata : forall st, c_line st = 0 ->
+            (let '(e, st1) := skip_to_data d st in
+             match e with
+             | Some o => (o, mkO st1 true false)
+             | None => old_fetch d (mkO st1 true false)
+             end) = (OFatal, mkO st true (match d_data d - 1 with O => true | S _ => false end))).
+  { intros st Hst. unfold skip_to_data. destruct (d_data d - 1) as [|m] eqn:Ed.
+    - cbn [jump_to]. rewrite Hst. cbn. unfold old_fetch. cbn [o_c].
+      rewrite (csv_next_bad_delim _ st H). reflexivity.
+    - rewrite (jump_to_stops_on_error _ _ _ st H) by lia. reflexivity. }
+  unfold check_header. destruct (d_header d) as [h|].
+  - destruct (h - 1) as [|m] eqn:Eh.
+    + cbn [jump_to]. rewrite Hc0. cbn [Nat.ltb Nat.leb]. rewrite (csv_next_bad_delim _ c0 H). reflexivity.
+    + rewrite (jump_to_stops_on_error _ _ _ c0 H) by lia. reflexivity.
+  - rewrite (Hdata c0 Hc0). reflexivity.
+Qed.
